@@ -12,6 +12,7 @@ Record URel (stk : stack) (s : st) (M : frame) (tr : list rd) (ev : list (nat * 
   u_chk : forall i k c, dict_get (scope_dict s i) k = Some (Chk c) -> i = top stk /\ c < length (checkers s);
   u_uniq : forall k k' c, dict_get (scope_dict s (top stk)) k = Some (Chk c) ->
                           dict_get (scope_dict s (top stk)) k' = Some (Chk c) -> k = k';
+  u_nopfx : forall i k cs, dict_get (scope_dict s i) k <> Some (Pfx cs);
   u_fd : in_fd s = false;
   u_top : exists pre, stk = pre ++ [top stk];
   u_def : deferred s = [];
@@ -85,14 +86,13 @@ Proof.
 Qed.
 
 Lemma needs_stack_nochk : forall s r ps,
-  (forall i c, In i r -> first_present (scope_dict s i) ps <> Some (Chk c)) ->
+  (forall i e, In i r -> first_present (scope_dict s i) ps = Some e -> e = Plain) ->
   exists b, needs_stack s r ps = (b, s).
 Proof.
   intros s r ps. induction r as [|i r IH]; intro H; cbn. eauto.
-  destruct (first_present (scope_dict s i) ps) as [[|c]|] eqn:E.
-  - eauto.
-  - exfalso. eapply H. left; reflexivity. exact E.
-  - apply IH. intros j c Hj. apply H. right. exact Hj.
+  destruct (first_present (scope_dict s i) ps) as [e|] eqn:E.
+  - rewrite (H i e (or_introl eq_refl) E). eauto.
+  - apply IH. intros j e Hj. apply H. right. exact Hj.
 Qed.
 
 Lemma needs_u : forall stk s M tr ev n a, URel stk s M tr ev ->
@@ -105,10 +105,13 @@ Proof.
   { remember (top stk) as t. rewrite Hstk. rewrite rev_app_distr. reflexivity. }
   rewrite Hrev. cbn [needs_stack].
   rewrite first_present_single by (apply (u_keys _ _ _ _ _ U)).
-  destruct (dict_get (scope_dict s (top stk)) [n]) as [[|c]|] eqn:E; eauto.
-  apply needs_stack_nochk. intros i c _ Hfp.
+  destruct (dict_get (scope_dict s (top stk)) [n]) as [[|c|cs]|] eqn:E; eauto.
+  { exfalso. eapply (u_nopfx _ _ _ _ _ U). exact E. }
+  apply needs_stack_nochk. intros i e _ Hfp.
   rewrite first_present_single in Hfp by (apply (u_keys _ _ _ _ _ U)).
-  destruct (u_chk _ _ _ _ _ U _ _ _ Hfp) as [-> _]. congruence.
+  destruct e as [|c|cs]; auto.
+  - destruct (u_chk _ _ _ _ _ U _ _ _ Hfp) as [-> _]. congruence.
+  - exfalso. eapply (u_nopfx _ _ _ _ _ U). exact Hfp.
 Qed.
 
 (* URel does not look at the missing list or the line *)
@@ -124,7 +127,7 @@ Proof.
   assert (Hlen : length (checkers (mark_used s c)) = length (checkers s)) by (cbn; apply mark_length).
   constructor; auto.
   - intros i k c0 H. rewrite Hlen. eapply u_chk0. exact H.
-  - intro n. specialize (u_bind0 n). rewrite Hsd. destruct (dict_get (scope_dict s (top stk)) [n]) as [[|c0]|]; auto.
+  - intro n. specialize (u_bind0 n). rewrite Hsd. destruct (dict_get (scope_dict s (top stk)) [n]) as [[|c0|cs0]|]; auto.
     destruct (checker_at_mark s c c0) as (-> & -> & _). exact u_bind0.
   - intros ln n l i H. destruct (u_reads0 _ _ _ _ H) as (c0 & Hl & H1 & H2 & H3).
     exists c0. rewrite Hlen. destruct (checker_at_mark s c c0) as (-> & -> & Hu & _). auto.
@@ -144,7 +147,8 @@ Proof.
   set (s1 := match dict_get (scope_dict s (top stk)) [n] with Some (Chk c) => mark_used s c | _ => s end).
   assert (U1 : URel stk s1 M (tr ++ [(ln, n, resolve n [M])]) ev).
   { pose proof (u_bind _ _ _ _ _ U n) as Hb. subst s1. rewrite resolve_module.
-    destruct (dict_get (scope_dict s (top stk)) [n]) as [[|c]|] eqn:E.
+    destruct (dict_get (scope_dict s (top stk)) [n]) as [[|c|cs]|] eqn:E.
+    3:{ exfalso. eapply (u_nopfx _ _ _ _ _ U). exact E. }
     - destruct U. constructor; auto. intros ln' n' l i H. apply in_app_iff in H as [H|[H|[]]]. eauto.
       injection H as _ _ H. destruct (lookup_b n (fdyn M)); try discriminate. injection H as ->. exfalso. eapply Hb. reflexivity.
     - assert (Hrefd : referenced s c) by (exists (top stk), [n]; exact E).
@@ -193,7 +197,7 @@ Lemma drop_old_fields : forall s t n,
   scopes (drop_old s t n) = scopes s /\ checkers (drop_old s t n) = checkers s /\ in_fd (drop_old s t n) = in_fd s /\
   deferred (drop_old s t n) = deferred s /\ lineno (drop_old s t n) = lineno s.
 Proof.
-  intros. unfold drop_old. destruct (dict_get (scope_dict s t) [n]) as [[|c]|]; auto.
+  intros. unfold drop_old. destruct (dict_get (scope_dict s t) [n]) as [[|c|cs]|]; auto.
   cbv zeta. destruct (c_used (checker_at s c)); auto.
 Qed.
 
@@ -242,6 +246,9 @@ Proof.
     + exfalso. destruct Hv as [[-> _]|(c' & -> & _ & Hnr & _)]. discriminate. injection H as <-. apply Hnr. exists t, k'. exact H'.
     + exfalso. destruct Hv as [[-> _]|(c' & -> & _ & Hnr & _)]. discriminate. injection H' as <-. apply Hnr. exists t, k. exact H.
     + eapply u_uniq0; eassumption.
+  - (* no prefix-use entry *) intros i k cs H. rewrite Hsd in H. destruct (Nat.eqb t i).
+    + destruct (dotted_eqb k [n]). destruct Hv as [[-> _]|(c' & -> & _)]; discriminate. eapply u_nopfx0; exact H.
+    + eapply u_nopfx0; exact H.
   - congruence.
   - exact u_top0.
   - congruence.
@@ -249,7 +256,7 @@ Proof.
     destruct (N.eqb n' n) eqn:E.
     + destruct Hv as [[-> ->]|(c' & -> & _ & _ & -> & _)]. intros l i; discriminate. rewrite Hca. reflexivity.
     + specialize (u_bind0 n'). fold t in u_bind0.
-      destruct (dict_get (scope_dict s t) [n']) as [[|c]|]; auto. rewrite Hca. exact u_bind0.
+      destruct (dict_get (scope_dict s t) [n']) as [[|c|cs]|]; auto. rewrite Hca. exact u_bind0.
   - (* reads *) intros ln n' l i H. destruct (u_reads0 _ _ _ _ H) as (c & H1 & H2 & H3 & H4).
     exists c. rewrite Eck2, Eck, Hca. auto.
   - (* unused *) intros l i H. rewrite Eun2 in H. rewrite Eck2, Eck.
@@ -264,7 +271,7 @@ Proof.
     assert (G : In (l, i) (unused s) \/
                 exists c, dict_get (scope_dict s t) [n] = Some (Chk c) /\ c_used (checker_at s c) = false /\
                           l = c_line (checker_at s c) /\ i = c_imp (checker_at s c)).
-    { subst s1. unfold drop_old in H. destruct (dict_get (scope_dict s t) [n]) as [[|c]|] eqn:E; auto.
+    { subst s1. unfold drop_old in H. destruct (dict_get (scope_dict s t) [n]) as [[|c|cs]|] eqn:E; auto.
       cbv zeta in H. destruct (c_used (checker_at s c)) eqn:Eu; auto.
       cbn in H. apply in_app_iff in H as [H|[H|[]]]; auto. injection H as <- <-. right. exists c. auto. }
     destruct G as [G|(c & E & Eu & -> & ->)].
@@ -305,7 +312,7 @@ Proof.
   assert (U' : URel stk s' M tr (ev ++ [(lineno s, imp)])).
   { destruct U. constructor; auto.
     - intros i k c H. destruct (u_chk0 _ _ _ H). split; auto. lia.
-    - intro n. specialize (u_bind0 n). rewrite Hsd. destruct (dict_get (scope_dict s (top stk)) [n]) as [[|c]|] eqn:E; auto.
+    - intro n. specialize (u_bind0 n). rewrite Hsd. destruct (dict_get (scope_dict s (top stk)) [n]) as [[|c|cs]|] eqn:E; auto.
       destruct (u_chk0 _ _ _ E) as [_ Hlt]. rewrite (Hold c Hlt). exact u_bind0.
     - intros ln n l i H. destruct (u_reads0 _ _ _ _ H) as (c & A & B & C & D). exists c. rewrite (Hold c A). repeat split; auto. lia.
     - intros l i H. destruct (u_unused0 _ _ H) as (c & A & B & C & D & E). exists c. rewrite (Hold c A). repeat split; auto. lia.
@@ -330,10 +337,10 @@ Proof.
   { apply dotted_eqb_neq. intro E. injection E as E _. contradiction. }
   unfold store_import, import_bsrcs. cbn [fst snd negb orb]. rewrite Estar.
   destruct asname as [a|].
-  - cbn [orb bind_all fold_left fst snd imp_events flat_map app]. split. apply import_store_u. exact U.
+  - cbn [orb bind_all fold_left fst snd imp_events flat_map app map combine]. split. apply import_store_u. exact U.
     rewrite store_true_lineno. reflexivity.
   - destruct rest as [|x rest']; try discriminate.
-    cbn [orb bind_all fold_left fst snd imp_events flat_map app proper_prefixes prefixes prefixes_from removelast].
+    cbn [orb bind_all fold_left fst snd imp_events flat_map app proper_prefixes prefixes prefixes_from removelast map combine].
     split. apply import_store_u. exact U. rewrite store_true_lineno. reflexivity.
 Qed.
 
@@ -348,9 +355,9 @@ Proof.
   unfold not_future in Hf. apply negb_true_iff in Hf.
   unfold store_import, importfrom_bsrcs. cbn [fst snd negb orb dotted_eqb]. rewrite E, Hf. cbn [andb orb].
   destruct asname as [a|].
-  - cbn [bind_all fold_left fst snd imp_events flat_map app]. split. apply import_store_u. exact U.
+  - cbn [bind_all fold_left fst snd imp_events flat_map app map combine]. split. apply import_store_u. exact U.
     rewrite store_true_lineno. reflexivity.
-  - cbn [bind_all fold_left fst snd imp_events flat_map app proper_prefixes prefixes prefixes_from removelast].
+  - cbn [bind_all fold_left fst snd imp_events flat_map app proper_prefixes prefixes prefixes_from removelast map combine].
     split. apply import_store_u. exact U. rewrite store_true_lineno. reflexivity.
 Qed.
 
@@ -551,12 +558,14 @@ Proof.
   destruct (init_state bi ns) as [stk s]. destruct H as (HR & Hm & Hck & Hun & Hks).
   destruct HR as [(Hp & Hr & Hs & Hfd & Ht & Hd) HB].
   constructor; auto.
-  - intros i k c H. exfalso. eapply Hp. exact H.
-  - intros k k' c H. exfalso. eapply Hp. exact H.
+  - intros i k c H. apply Hp in H. discriminate.
+  - intros k k' c H. apply Hp in H. discriminate.
+  - intros i k cs H. apply Hp in H. discriminate.
   - exists (removelast stk). unfold top. apply app_removelast_last. intro E. rewrite E in Ht. contradiction.
-  - intro n. destruct (dict_get (scope_dict s (top stk)) [n]) as [[|c]|] eqn:E.
+  - intro n. destruct (dict_get (scope_dict s (top stk)) [n]) as [[|c|cs]|] eqn:E.
     + intros l i H. apply lookup_b_others_other in H. discriminate.
-    + exfalso. eapply Hp. exact E.
+    + apply Hp in E. discriminate.
+    + apply Hp in E. discriminate.
     + intros l i H. apply lookup_b_others_other in H. discriminate.
   - intros ln n l i [].
   - intros l i H. rewrite Hun in H. contradiction.
@@ -570,7 +579,8 @@ Lemma report_unused_spec : forall d s l i,
   exists k c, In (k, Chk c) d /\ c_used (checker_at s c) = false /\ c_line (checker_at s c) = l /\ c_imp (checker_at s c) = i.
 Proof.
   unfold report_unused_of. induction d as [|[k e] d IH]; intros s l i H; cbn [fold_left] in H. auto.
-  cbn [snd] in H. destruct e as [|c].
+  cbn [snd] in H. destruct e as [|c|cs].
+  3:{ apply IH in H as [H|(k' & c' & A & B)]; auto. right. exists k', c'. split; auto. right. exact A. }
   - apply IH in H as [H|(k' & c' & A & B)]; auto. right. exists k', c'. split; auto. right. exact A.
   - destruct (c_used (checker_at s c)) eqn:Eu.
     + apply IH in H as [H|(k' & c' & A & B)]; auto. right. exists k', c'. split; auto. right. exact A.
